@@ -36,6 +36,12 @@
    - [C09_single_pass_range_insert_strong] (AliasThrow.v): insert(pos, first, last) with single-pass input iterators within
      capacity (elements appended one by one with the roll-back of append_range, then rotated into place): a throwing copy
      leaves every slot as before, completion gives prefix, range, suffix;
+   - [C09_smallvector_*] (Overlay.v): the inline slots of a SmallVector share their first bytes with the pointer to its heap
+     block; shrink_to_fit back to the inline storage and the swap of a heap vector with an inline one relocate elements INTO those
+     slots while the object is still in its heap state.  With the repairs (handler / scope guard putting the pointer back) a throw
+     leaves a well-formed object with the same heap block; without them the object is left in its heap state with a clobbered
+     pointer ([..._before_fix_refuted]: every later access is through a wild pointer) - for every size, N, number of slots the
+     pointer spans and throw index;
    - sets [C09_flatset_*]: FlatSet::operator=(const FlatSet&), insert(first, last) and restoreInvariants() are REGENERATED
      from flatset.hpp (Gen/HintGen.v: the try block becomes a match on [thr : option (list Z)], [Some l'] = "an operation
      of the vector threw and left the vector as l'", for ANY l' - the vector only promises the basic guarantee).  Whatever
@@ -47,7 +53,7 @@
    the element ledger, the allocator ledger, contents (strong operations: unchanged) and usability are checked. *)
 From Coq Require Import ZArith List Bool Sorted.
 From Amc Require Import Throw.
-From Amc Require EmplaceGrow ThrowMove SlotsTR Transfer AliasThrow.
+From Amc Require EmplaceGrow ThrowMove SlotsTR Transfer AliasThrow Overlay.
 From Amc Require Hint HintTV.
 From Amc.Gen Require HintGen SsetGen.
 From Amc Require SsetTV.
@@ -308,3 +314,52 @@ Theorem C09_single_pass_range_insert_strong :
   | Threw m' => forall j, m' j = m j
   | Err _ => False end.
 Proof. exact AliasThrow.insert_range_in_spec. Qed.
+
+(* ---- SmallVector: the inline slots overlay the pointer to the heap block ---- *)
+Theorem C09_smallvector_shrink_to_inline :
+  forall N span mt m th o p,
+  Overlay.WF N m o -> Overlay.small o = false -> Overlay.ptr o = Some p -> Overlay.size o <= N ->
+  match Overlay.reset_to_small true N span mt m th o with
+  | Overlay.RErr _ => False
+  | Overlay.RThrew m' o' => mt = true /\ o' = o /\ (forall j, m' j = m j) /\ Overlay.WF N m' o'
+  | Overlay.RDone m' o' _ => Overlay.small o' = true /\ Overlay.size o' = Overlay.size o /\ Overlay.bi o' = Overlay.bi o /\ Overlay.WF N m' o' /\
+                     Transfer.content m' (Overlay.bi o) (Overlay.size o) = Transfer.content m p (Overlay.size o) /\
+                     (forall k, k < Overlay.cap o -> m' (p + k) = Out) /\
+                     (forall j, ~ Transfer.inR (Overlay.bi o) N j -> ~ Transfer.inR p (Overlay.cap o) j -> m' j = m j)
+  end.
+Proof. exact Overlay.reset_to_small_spec. Qed.
+
+Theorem C09_smallvector_shrink_before_fix_refuted :
+  forall N span m j o p,
+  Overlay.WF N m o -> Overlay.small o = false -> Overlay.ptr o = Some p -> Overlay.size o <= N -> 1 <= span -> 1 <= j < Overlay.size o ->
+  exists m' o', Overlay.reset_to_small false N span true m (Some j) o = Overlay.RThrew m' o' /\ Overlay.small o' = false /\ Overlay.ptr o' = None /\
+                Overlay.data o' = inr Overlay.WildPointer.
+Proof. exact Overlay.reset_to_small_refuted_general. Qed.
+
+Theorem C09_smallvector_swap_heap_with_inline :
+  forall N span mt m th a b p,
+  Overlay.WF N m a -> Overlay.WF N m b -> Overlay.small a = false -> Overlay.small b = true -> Overlay.ptr a = Some p ->
+  Transfer.Disj (Overlay.bi a) N (Overlay.bi b) N -> Transfer.Disj (Overlay.bi b) N p (Overlay.cap a) ->
+  match Overlay.swap_dyn_small true N span mt m th a b with
+  | Overlay.RErr _ => False
+  | Overlay.RThrew m' (a', b') => mt = true /\ a' = a /\ b' = b /\ Overlay.WF N m' a' /\
+                          (forall k, k < Overlay.cap a -> m' (p + k) = m (p + k)) /\
+                          (forall k, k < Overlay.size b -> EmplaceGrow.alive (m' (Overlay.bi b + k)) = true) /\
+                          (forall k, Overlay.size b <= k < N -> m' (Overlay.bi b + k) = Raw) /\
+                          (forall j, ~ (Overlay.bi b <= j < Overlay.bi b + Overlay.size b) -> m' j = m j)
+  | Overlay.RDone m' (a', b') _ => Overlay.small a' = true /\ Overlay.size a' = Overlay.size b /\ Overlay.bi a' = Overlay.bi a /\ Overlay.WF N m' a' /\
+                           Transfer.content m' (Overlay.bi a) (Overlay.size b) = Transfer.content m (Overlay.bi b) (Overlay.size b) /\
+                           Overlay.small b' = false /\ Overlay.size b' = Overlay.size a /\ Overlay.cap b' = Overlay.cap a /\ Overlay.ptr b' = Some p /\
+                           Overlay.bi b' = Overlay.bi b /\ Overlay.WF N m' b' /\
+                           (forall k, k < Overlay.cap a -> m' (p + k) = m (p + k)) /\
+                           (forall j, ~ Transfer.inR (Overlay.bi a) N j -> ~ Transfer.inR (Overlay.bi b) N j -> m' j = m j)
+  end.
+Proof. exact Overlay.swap_dyn_small_spec. Qed.
+
+Theorem C09_smallvector_swap_before_fix_refuted :
+  forall N span m j a b p,
+  Overlay.WF N m a -> Overlay.WF N m b -> Overlay.small a = false -> Overlay.small b = true -> Overlay.ptr a = Some p ->
+  Transfer.Disj (Overlay.bi a) N (Overlay.bi b) N -> Transfer.Disj (Overlay.bi b) N p (Overlay.cap a) -> 1 <= span -> 1 <= j < Overlay.size b ->
+  exists m' a' b', Overlay.swap_dyn_small false N span true m (Some j) a b = Overlay.RThrew m' (a', b') /\ Overlay.small a' = false /\
+                   Overlay.ptr a' = None /\ Overlay.data a' = inr Overlay.WildPointer.
+Proof. exact Overlay.swap_dyn_small_refuted_general. Qed.
